@@ -117,15 +117,15 @@ DoOp(s, op) ==
          Emit(CallSoon([s EXCEPT !.tk[JT(s.jstarted)] = [NoT EXCEPT !.st = "pend"], !.jstarted = @ + 1], JT(s.jstarted)),
               [e |-> "join", j |-> s.jstarted])
     [] op.o = "release" ->
-         Emit(FutSet([s EXCEPT !.tk[op.c].out = op.out], op.c, "res"), [e |-> "release", c |-> op.c, out |-> op.out])
+         Emit(FutSet([s EXCEPT !.tk[op.c].out = op.out], op.c, "res"), [e |-> "release", c |-> op.c, out |-> op.out, eff |-> s.tk[op.c].st = "pend" /\ s.tk[op.c].pc = "body" /\ s.tk[op.c].fst = "pend"])
     [] op.o = "cancel" ->
-         Emit(TaskCancel(s, op.c), [e |-> "cancel", c |-> op.c])
+         Emit(TaskCancel(s, op.c), [e |-> "cancel", c |-> op.c, eff |-> s.tk[op.c].st = "pend"])
 
 (***************************************************************************)
 (* The property as a monitor over observation records.                     *)
 (***************************************************************************)
 MInit == [pos |-> 0, puts |-> 0, exits |-> 0, entered |-> {}, exited |-> {}, taken |-> {},
-          jpend |-> {}, jzero |-> {}, viol |-> {}, hit |-> {}]
+          jpend |-> {}, jzero |-> {}, rel |-> {}, cnc |-> {}, viol |-> {}, hit |-> {}]
 Chk(c, ent, ok) == IF ok THEN {} ELSE {<<c, ent>>}
 Hit(c, cond) == IF cond THEN {c} ELSE {}
 MOut(g, vs, hs) ==
@@ -142,11 +142,17 @@ QMonStep(g0, e) ==
               Chk("C20.item", e.c, e.item \notin g.taken /\ e.item < g.puts /\ e.c \notin g.entered), Hit("C20.enter", TRUE))
     [] e.e = "exit" ->
          (* the block exits - normally, by exception or by cancellation: its item is marked processed exactly once *)
+         (* ... and the block exits the way its body ended: __aexit__ neither swallows nor replaces an exception or a
+            cancellation (a cancelled consumer stays cancelled), nor invents one *)
          Zero(MOut([g EXCEPT !.exited = @ \cup {e.c}, !.exits = @ + 1],
-                   Chk("C20.once", e.c, e.c \in g.entered /\ e.c \notin g.exited /\ ~e.verr),
+                   Chk("C20.once", e.c, e.c \in g.entered /\ e.c \notin g.exited /\ ~e.verr)
+                   \cup Chk("C20.exitkind", e.c, e.verr \/ IF e.how = "canc" THEN e.c \in g.cnc
+                                                          ELSE e.c \notin g.cnc /\ <<e.c, e.how>> \in g.rel),
                    Hit("C20.once", TRUE) \cup Hit("C20.exc", e.how = "exc") \cup Hit("C20.cancbody", e.how = "canc")))
     [] e.e = "cwait" ->
-         MOut(g, Chk("C20.cwait", e.c, e.c \notin g.entered), Hit("C20.cwait", TRUE))
+         MOut(g, Chk("C20.cwait", e.c, e.c \notin g.entered /\ e.c \in g.cnc), Hit("C20.cwait", TRUE))
+    [] e.e = "release" -> IF e.eff THEN [g EXCEPT !.rel = @ \cup {<<e.c, e.out>>}] ELSE g
+    [] e.e = "cancel" -> IF e.eff THEN [g EXCEPT !.cnc = @ \cup {e.c}] ELSE g
     [] e.e = "jbegin" -> Zero([g EXCEPT !.jpend = @ \cup {e.j}])
     [] e.e = "jdone" ->
          (* join returns only if, at some moment since it was called, nothing was unfinished *)
